@@ -39,6 +39,30 @@ theorem compile_ok_of_scoped (t : Template) (hmain : nodesScoped false t.nodes =
     cases ev <;> simp [Event.isPanic, Good] at this ⊢
   unfold compileTemplate; rw [hnp]; exact ⟨_, rfl⟩
 
+open Compiler in
+/-- every chunk of a template with scoped node lists is the compilation of a scoped node list
+(`Compiler.chunks_are_scoped_nodes` without the third conjunct of `templateScoped`) -/
+theorem chunks_scoped_nodes (t : Template) (hmain : nodesScoped false t.nodes = true)
+    (hcomps : ∀ d ∈ t.componentDefinitions, nodesScoped false d.body = true) (c : Compiled)
+    (hc : compileTemplate t = .ok c) :
+    ∀ ch ∈ c.chunks, ∃ ns, ch = nodesCode 0 none ns ∧ nodesScoped false ns = true := by
+  unfold compileTemplate at hc
+  split at hc
+  · cases hc
+  · cases hc
+    intro ch hch
+    simp only [Compiled.chunks, List.mem_cons, List.mem_append, List.mem_map] at hch
+    rcases hch with rfl | ⟨⟨n, code⟩, hmem, rfl⟩ | ⟨_, ⟨cd, hmem, rfl⟩, rfl⟩
+    · exact ⟨t.nodes, rfl, hmain⟩
+    · have hgood := scoped_good_aux.2.1 false 0 t.nodes false hmain (fun h => h)
+      simp only [blockDefs, bodyEvents, List.mem_filterMap] at hmem
+      obtain ⟨ev, hev, hsome⟩ := hmem
+      have := hgood ev hev
+      cases ev <;> simp at hsome
+      obtain ⟨rfl, rfl⟩ := hsome
+      exact this
+    · exact ⟨cd.body, rfl, hcomps cd hmem⟩
+
 /-- the token list the composed model hands to the parser for a source -/
 def parserInput (d : Delims) (src : Bytes) : List Tok :=
   toksOf (tokenize d src).tokens
